@@ -28,7 +28,7 @@ m = dict(
     setup_cmd="./setup.sh",
     hooks=dict(guard="verif", enable="go build -tags verif (harness modules under harness/go use replace => /repo)",
                baseline_off_cmd="for m in . otel stores/sqlite stores/durablestream; do (cd /repo/$m && GOFLAGS=-mod=mod GOPROXY=off go test -vet=off -count=1 -timeout 25m ./...); done",
-               source_commits=[], add_only=True),
+               source_commits=["14cb23b verif hook: build-tagged setter for the SQLite database opener (stores/sqlite/verif_hooks.go)"], add_only=True),
     engines=[dict(name="coq-model+correspondence", path="check", serves_properties=[c["property_id"] for c in checks],
                   kind_free_text="Coq 8.16.1 theorems over executable Gallina models (coq/), tied to /repo by a differential "
                                  "correspondence check: Go harness built from the working tree, cases.v evaluated by vm_compute")],
